@@ -280,7 +280,47 @@ def fuzz(t, n):
     t.bounds.append(f"{done} random typed expressions with random call shapes (seeded)")
 
 
+def static_and_class_methods(t):
+    """Static and class methods of a typed class, called as methods on a typed object: their
+    signatures have NO receiver parameter, every declared parameter is an argument (seed C07_g:
+    the first declared parameter of any attribute call was taken for the receiver)."""
+    class Jet:
+        def pt(self) -> float: ...
+        def eta(self) -> float: ...
+
+        @staticmethod
+        def dR(eta: float, phi: float, cone: float = 0.4) -> float: ...
+
+        @classmethod
+        def make(cls, pt: float, scale: float = 2.0) -> float: ...
+
+        @staticmethod
+        def one(x: float = 1.5) -> float: ...
+
+    class Event:
+        def Jets(self) -> Iterable[Jet]: ...
+        def lead(self) -> Jet: ...
+    sites = [
+        ("e.lead().dR(e.a0, e.a1)", "dR", ["e.a0", "e.a1", "0.4"]),
+        ("e.lead().dR(e.a0, e.a1, 0.2)", "dR", ["e.a0", "e.a1", "0.2"]),
+        ("e.lead().dR(phi=e.a1, eta=e.a0)", "dR", ["e.a0", "e.a1", "0.4"]),
+        ("e.lead().dR(e.a0, cone=0.1, phi=e.a1)", "dR", ["e.a0", "e.a1", "0.1"]),
+        ("e.lead().dR(e.a0)", "dR", "ValueError"),
+        ("e.lead().make(e.a0)", "make", ["e.a0", "2.0"]),
+        ("e.lead().make(scale=3.0, pt=e.a0)", "make", ["e.a0", "3.0"]),
+        ("e.lead().make()", "make", "ValueError"),
+        ("e.lead().one()", "one", ["1.5"]),
+        ("e.Jets().Select(lambda j: j.dR(j.eta(), j.pt()))", "dR", ["j.eta()", "j.pt()", "0.4"]),
+        ("e.Jets().Select(lambda j: j.make(j.pt()))", "make", ["j.pt()", "2.0"]),
+        ("e.Jets().Where(lambda j: j.dR(j.eta(), phi=j.pt()) > 0.1).Select(lambda j: j.one())", "dR",
+         ["j.eta()", "j.pt()", "0.4"]),
+    ]
+    for src, meth, exp in sites:
+        check_site(t, Event, src, meth, exp, f"static/class method: {src}", True)
+
+
 def run(t):
+    static_and_class_methods(t)
     quick = t.tier == "quick"
     max_n = 3
     t.rules.append("signatures with 0..3 parameters x every trailing-default subset x every call "
